@@ -184,9 +184,10 @@ def _result_fields(op: str, res, a: dict) -> dict:
 
 def _sched_fields(res, a: dict) -> dict:
     if True:
-        return {"zone": a["zone"], "scheds": [
+        import time as _t
+        return {"zone": a["zone"], "now": int(_t.time()), "scheds": [
             {"id": text(s.schedule_id), "recurring": bool(s.recurring), "days": sorted(d.weekday for d in s.days),
-             "start": text(s.start_time), "end": text(s.end_time), "duration": text(s.duration)}
+             "start": text(s.start_time), "end": text(s.end_time), "duration": text(s.duration), "display": text(s.display)}
             for s in sorted(res.schedules, key=lambda s: int(s.schedule_id))]}
     return {}
 
